@@ -32,15 +32,21 @@ LINK_FAULTS_ACR122 = [f for f in LINK_FAULTS_PN53X if f[0] not in ("NoAck", "Bad
 CUT_LENS = range(6)          # well-formed frame, payload cut to k bytes (CutBodyX: extended frame, PN53x links only)
 
 
+ERRNOS = (5, 19, 32, 110)   # EIO, ENODEV, EPIPE, ETIMEDOUT raised by transport.read at the ACK wait / the response wait
+
+
 def link_faults(driver):
-    fs = list(LINK_FAULTS_ACR122 if driver == "acr122" else LINK_FAULTS_PN53X) + [("CutBody", n) for n in CUT_LENS]
+    fs = list(LINK_FAULTS_ACR122 if driver == "acr122" else LINK_FAULTS_PN53X) + [("RspErr", n) for n in ERRNOS]
+    if driver != "acr122":
+        fs += [("AckErr", n) for n in ERRNOS]
+    fs += [("CutBody", n) for n in CUT_LENS]
     if driver in D.PN53X_LINK:
         fs += [("CutBodyX", n) for n in CUT_LENS]
     return fs
 UDP_SEND_FAULTS = [("HostIOW", 0), ("DeviceGone", 0), ("ShortSend", 0)]
 UDP_RECV_FAULTS = [("HostTimeout", 0), ("HostIO", 0), ("RfOff", 0), ("ShortFrame", 1), ("ShortFrame", 2),
                    ("BadChecksum", 0), ("WrongCode", 0), ("Garbled", 1), ("Garbled", 2)] + \
-                  [("CutBody", n) for n in range(6)]
+                  [("CutBody", n) for n in range(6)] + [("RspErr", n) for n in (5, 19, 32)]
 QUICK_PREP_STATUS = (0, 1, 2, 255)
 REG_READS = ("ReadRegister", "ReadIRq", "ReadFIFOLevel", "ReadFIFOData")
 PN53X_FAM = ("pn531", "pn532", "pn533", "rcs956", "arygon", "acr122")
@@ -79,6 +85,8 @@ def sim_fault(driver, at, k, v):
              "HostTimeout": ("timeout", 0), "HostIO": ("io_read", D.EIO), "RfOff": ("rfoff", 0)}
         if k in m:
             return U.UFault(at, *m[k])
+        if k == "RspErr":
+            return U.UFault(at, "io_read", v)
         raw = {("ShortFrame", 1): b"106A", ("ShortFrame", 2): b"106A 0", ("BadChecksum", 0): b"106A zz",
                ("WrongCode", 0): b"848B 00", ("Garbled", 1): b"\xff\xfe 00", ("Garbled", 2): b"106A 00 00"}[(k, v)]
         return U.UFault(at, "raw", raw)
@@ -90,6 +98,8 @@ def sim_fault(driver, at, k, v):
         return P.Fault(at, *m[k])
     if k in ("CutBody", "CutBodyX"):
         return P.Fault(at, k.lower(), v)
+    if k in ("AckErr", "RspErr"):
+        return P.Fault(at, "io_ack" if k == "AckErr" else "io_read", v)
     if k == "ShortFrame":
         return P.Fault(at, "short", v)
     if k == "ChipStatus":
@@ -103,13 +113,34 @@ def sim_fault(driver, at, k, v):
     raise ValueError(k)
 
 
+ACK_FRAMES = (P.ACK, b"2" + P.ACK)
+LAST_CANCEL = [False]        # of the most recent run_case / run_op (the rig may be replaced before the event is built)
+
+
+def cancelled(rig, at):
+    """did the host write an ACK frame (= cancel the pending command) right after its `at`-th command of the case?"""
+    t = rig.transport
+    if t is None or not at:
+        return False
+    n = 0
+    for i, w in enumerate(t.written):
+        if t._is_command(bytes(w)):
+            n += 1
+            if n == at:
+                return i + 1 < len(t.written) and bytes(t.written[i + 1]) in ACK_FRAMES
+    return False
+
+
 def run_case(rig, kind, at, k, v):
     send, tmo = D.prepare(rig, kind)
     if at and rig.driver == "udp" and k == "CutBody":
         rig.chip.arm(U.UFault(at, "raw", rig.net.reply[:max(0, min(v, len(rig.net.reply) - 1))]))
     else:
         rig.chip.arm(sim_fault(rig.driver, at, k, v) if at else None)
+    if rig.transport is not None:
+        rig.transport.reset_log()
     o, x, val = D.classify(lambda: rig.clf.exchange(send, tmo))
+    LAST_CANCEL[0] = cancelled(rig, at)
     return o, x, val
 
 
@@ -124,7 +155,7 @@ def walk(driver, tier, only_kinds=None):
         o, x, val = run_case(rig, kind, 0, None, None)
         names = list(rig.chip.log)
         ev = [dict(d=driver, k=kind, m=mode, at=0, c="-", f="None", v=0, o=o, x=x,
-                   same=bool(o == "Data" and bytes(val) == D.expected_data(rig, kind)))]
+                   same=bool(o == "Data" and bytes(val) == D.expected_data(rig, kind)), cancel=LAST_CANCEL[0])]
         n = len(names)
         for at in range(1, n + 1):
             cmd, final = names[at - 1], at == n
@@ -134,7 +165,7 @@ def walk(driver, tier, only_kinds=None):
                 if o in ("Hang", "Internal"):
                     rig = D.Rig(driver)                # do not trust the object's state any further
                 ev.append(dict(d=driver, k=kind, m=mode, at=at, c=seen, f=k, v=v, o=o, x=x,
-                               same=bool(o == "Data" and bytes(val) == D.expected_data(rig, kind))))
+                               same=bool(o == "Data" and bytes(val) == D.expected_data(rig, kind)), cancel=LAST_CANCEL[0]))
         batches.append(dict(id="%s/%s/%s" % (driver, kind, tier),
                             slice=dict(d=driver, k=kind, tier=tier, n=n, cover=True), ev=ev))
     return batches
@@ -184,6 +215,8 @@ def op_sim_fault(driver, kind, at, cmd, k, v):
             return O.UFault(at, *m[k])
         if k == "CutBody":
             return O.UFault(at, "cut", v)
+        if k == "RspErr":
+            return O.UFault(at, "io", v)
         b = (OP.scenario(driver, kind).brty or OP.brty_of(kind)).encode()
         raw = {("ShortFrame", 1): b, ("ShortFrame", 2): b + b" 0", ("BadChecksum", 0): b + b" zz",
                ("WrongCode", 0): b"848B 00", ("Garbled", 1): b"\xff\xfe 00", ("Garbled", 2): b + b" 00 00"}[(k, v)]
@@ -198,7 +231,10 @@ def op_sim_fault(driver, kind, at, cmd, k, v):
 def run_op(rig, kind, at, cmd, k, v):
     scn, fn = OP.prepare(rig, kind)
     rig.chip.arm(op_sim_fault(rig.driver, kind, at, cmd, k, v) if at else None)
+    if rig.transport is not None:
+        rig.transport.reset_log()
     o, x, val = fn() if kind in OP.CLOSE_KINDS else OP.classify(fn)
+    LAST_CANCEL[0] = cancelled(rig, at)
     return o, x, OP.same(scn, o, val)
 
 
@@ -212,7 +248,7 @@ def walk_ops(driver, tier, only_kinds=None):
         mode = OP.mode_of(kind)
         o, x, sm = run_op(rig, kind, 0, None, None, None)
         names = list(rig.chip.log)
-        ev = [dict(d=driver, k=kind, m=mode, at=0, c="-", f="None", v=0, o=o, x=x, same=sm)]
+        ev = [dict(d=driver, k=kind, m=mode, at=0, c="-", f="None", v=0, o=o, x=x, same=sm, cancel=LAST_CANCEL[0])]
         n = len(names)
         for at in range(1, n + 1):
             for (k, v) in op_faults_for(driver, names[at - 1], tier):
@@ -220,7 +256,7 @@ def walk_ops(driver, tier, only_kinds=None):
                 seen = rig.chip.log[at - 1] if len(rig.chip.log) >= at else "?"
                 if o in ("Hang", "Internal"):
                     rig = D.Rig(driver, ops=True)      # do not trust the object's state any further
-                ev.append(dict(d=driver, k=kind, m=mode, at=at, c=seen, f=k, v=v, o=o, x=x, same=sm))
+                ev.append(dict(d=driver, k=kind, m=mode, at=at, c=seen, f=k, v=v, o=o, x=x, same=sm, cancel=LAST_CANCEL[0]))
         batches.append(dict(id="%s/%s/%s" % (driver, kind, tier),
                             slice=dict(d=driver, k=kind, tier=tier, n=n, cover=True), ev=ev))
     return batches
@@ -261,9 +297,11 @@ def op_key_of(e, n):
         what = "chip-error"
     elif f in ("RegValue", "NbTg"):
         what = "value"
-    elif f in ("HostTimeout", "NoAck"):
+    elif f == "NoAck" or (f == "AckErr" and e["v"] == 110):
+        what = "ack-wait-timeout"
+    elif f == "HostTimeout" or (f == "RspErr" and e["v"] == 110):
         what = "no-answer"
-    elif f in ("HostIO", "HostIOW", "DeviceGone", "AddrInUse"):
+    elif f in ("HostIO", "HostIOW", "DeviceGone", "AddrInUse", "AckErr", "RspErr"):
         what = "host-io-error"
     elif f == "RfOff":
         what = "rf-off"
@@ -316,9 +354,11 @@ def key_of(e, n):
         what = "chip-error"
     elif f == "RegValue":
         what = "reg-value@" + e["c"]
-    elif f in ("HostTimeout", "NoAck"):
+    elif f == "NoAck" or (f == "AckErr" and e["v"] == 110):
+        what = "ack-wait-timeout"
+    elif f == "HostTimeout" or (f == "RspErr" and e["v"] == 110):
         what = "no-answer"
-    elif f in ("HostIO", "HostIOW", "DeviceGone"):
+    elif f in ("HostIO", "HostIOW", "DeviceGone", "AckErr", "RspErr"):
         what = "host-io-error"
     else:
         what = "bad-frame"
@@ -352,6 +392,13 @@ def selftest_traces(b, op=False):
     t3["id"] = b["id"] + "-wrongcmd"
     t3["ev"][-1]["c"] = "GetFirmwareVersion"
     out.append((t3, t3["id"]))
+    t4 = json.loads(json.dumps(b))                      # the cancel ACK after a timed-out response "forgotten"
+    t4["id"] = b["id"] + "-nocancel"
+    for i, e in enumerate(t4["ev"]):
+        if e["f"] == "HostTimeout" and e["cancel"]:
+            e["cancel"] = False
+            out.append((t4, "%s#%d" % (t4["id"], i + 1)))
+            break
     return out
 
 
@@ -406,7 +453,10 @@ def run(tier, seed):
             if pv is None:
                 continue
             why = pv[3]
-            if e["k"] in OP.OP_KINDS:
+            if why[1] == ["CancelAck"]:
+                key = "%s:Chipset.command:%s:%s" % (family(e["d"]), e["f"] + ("(%d)" % e["v"] if e["v"] else ""),
+                                                     "no-cancel-ack" if not e["cancel"] else "unexpected-ack-frame")
+            elif e["k"] in OP.OP_KINDS:
                 key = op_key_of(e, n) if why[1] == ["OutcomeAllowed"] else \
                     "target-intact:%s:%s:%s:%s" % (family(e["d"]), OP.method_of(e["k"]), e["c"], e["f"])
             else:
@@ -420,7 +470,7 @@ def run(tier, seed):
              operation_slices=sum(1 for b in batches if b["slice"]["k"] in OP.OP_KINDS))
     ck.cover(traces_validated_against_impl=ncase, slices_accepted=accepted, slices=len(batches),
              trace_states=stats["states"], distinct_outcome_classes=len(classes),
-             binding_selftest="changed outcome, changed command name and dropped case all rejected")
+             binding_selftest="changed outcome, changed command name, dropped case and dropped cancel ACK all rejected")
     ck.sample(dict(slice=batches[0]["id"], first_events=batches[0]["ev"][:3]))
     ck.sample(dict(mc="DriverErr", tier=tier, distinct=r.distinct))
     ck.assume("chipsets and transports are simulated at frame level (sim/chip_*.py): USB/TTY glue of nfc.clf.transport is not executed",
@@ -454,12 +504,12 @@ def replay(rep, args):
         mode = OP.mode_of(r["k"])
         o, x, sm = run_op(rig, r["k"], 0, None, None, None)
         names = list(rig.chip.log)
-        ev = [dict(d=r["driver"], k=r["k"], m=mode, at=0, c="-", f="None", v=0, o=o, x=x, same=sm)]
+        ev = [dict(d=r["driver"], k=r["k"], m=mode, at=0, c="-", f="None", v=0, o=o, x=x, same=sm, cancel=LAST_CANCEL[0])]
         if r["at"]:
             o, x, sm = run_op(rig, r["k"], r["at"], names[r["at"] - 1], r["f"], r["v"])
             print("real outcome: %s %s ; host commands: %s" % (o, x, " ".join(rig.chip.log)))
             ev.append(dict(d=r["driver"], k=r["k"], m=mode, at=r["at"], c=rig.chip.log[r["at"] - 1], f=r["f"], v=r["v"],
-                           o=o, x=x, same=sm))
+                           o=o, x=x, same=sm, cancel=LAST_CANCEL[0]))
         else:
             print("real outcome: %s %s ; host commands: %s" % (o, x, " ".join(names)))
         bs = [dict(id="replay", slice=dict(d=r["driver"], k=r["k"], tier="thorough", n=len(names), cover=False), ev=ev)]
@@ -471,11 +521,11 @@ def replay(rep, args):
         o, x, val = run_case(rig, r["k"], 0, None, None)
         names = list(rig.chip.log)
         ev = [dict(d=r["driver"], k=r["k"], m=mode, at=0, c="-", f="None", v=0, o=o, x=x,
-                   same=bool(o == "Data" and bytes(val) == D.expected_data(rig, r["k"])))]
+                   same=bool(o == "Data" and bytes(val) == D.expected_data(rig, r["k"])), cancel=LAST_CANCEL[0])]
         o, x, val = run_case(rig, r["k"], r["at"], r["f"], r["v"])
         print("real outcome: %s %s %r" % (o, x, val))
         ev.append(dict(d=r["driver"], k=r["k"], m=mode, at=r["at"], c=rig.chip.log[r["at"] - 1], f=r["f"], v=r["v"],
-                       o=o, x=x, same=False))
+                       o=o, x=x, same=False, cancel=LAST_CANCEL[0]))
         bs = [dict(id="replay", slice=dict(d=r["driver"], k=r["k"], tier="thorough", n=len(names), cover=False), ev=ev)]
     verdicts, _ = tlc.validate_traces("Trace_DriverErr.tla", "Trace_DriverErr.cfg", PID + "_replay", bs, shards=1)
     bad = {k: v for k, v in verdicts.items() if v[0] != "ACCEPT"}
